@@ -340,7 +340,7 @@ def second(items, n):
 
 REPLAY = {'quick': [('ab', 2, 40, 1), ('a_b', 2, 30, 0)],
           'thorough': [('ab', 2, None, 1), ('a_b', 2, None, 0),
-                       ('abc', 2, 500, 1), ('ab_c', 3, 400, 0)]}
+                       ('abc', 2, 500, 1), ('ab_c', 3, None, 1, 'num=800')]}
 
 
 def main():
